@@ -2859,9 +2859,8 @@ fn k_srcslice(cx: &mut Ctx, drv: &mut Driver, rng: &mut Rng, n_random: usize) ->
 }
 
 /// (K) for Model/Layout.lean: the single-line / break decision of every group `render_group` lays out,
-/// recorded by the `koto_format::verif_trace` hook (requests/C11-hook-1.diff), against the model.
-/// Compiled only with `--cfg c11_layout_trace` until the hook is in /repo.
-#[cfg(c11_layout_trace)]
+/// recorded by the `koto_format::verif_trace` hook, against the model.
+/// (hook H6, /repo f2634c9)
 fn k_layout(cx: &mut Ctx, drv: &mut Driver, progs: &[Prog], rng: &mut Rng, n_progs: usize) -> Value {
     let (mut n, mut bad, mut flat, mut skipped) = (0u64, 0u64, 0u64, 0u64);
     let grid = full_grid();
@@ -3098,7 +3097,6 @@ fn main() {
         let (n1, b1) = k_fmtopts(&mut cx, &mut drv, &mut rng.fork(), if args.thorough() { 6000 } else { 1500 });
         let (n2, b2) = k_srcslice(&mut cx, &mut drv, &mut rng.fork(), if args.thorough() { 3000 } else { 400 });
         k_stats = json!({"fmtopts_cases": n1, "fmtopts_disagreements": b1, "srcslice_cases": n2, "srcslice_disagreements": b2, "driver_requests": drv.requests});
-        #[cfg(c11_layout_trace)]
         {
             let progs = load_corpus();
             let mut gens: Vec<Prog> = vec![];
